@@ -60,7 +60,7 @@ func ZZ_C12_goldilocks_scalar_Neg() {
 	zzAssert(zzWLt(r, zzWConst(zzOrder)), "Neg canonical")
 }
 
-//zz: prop=C12 tier=thorough backend=lia timeout=1500 budget=3600
+//zz: prop=C12 tier=deep backend=lia timeout=1500 budget=3600
 func ZZ_C12_goldilocks_scalar_Mul() {
 	x, y := zzScalar("x"), zzScalar("y")
 	want := zzWMulLimbs(x[:], y[:])
@@ -73,7 +73,7 @@ func ZZ_C12_goldilocks_scalar_Mul() {
 
 // FromBytes: z = x mod order for byte strings of 0..114 bytes (Ed448 hashes are 114 bytes)
 //
-//zz: prop=C12 tier=thorough backend=lia timeout=1500 budget=3600
+//zz: prop=C12 tier=deep backend=lia timeout=1500 budget=3600
 func ZZ_C12_goldilocks_scalar_FromBytes_114() { zzFromBytesCheck(114) }
 
 //zz: prop=C12 tier=quick backend=lia timeout=300
